@@ -163,6 +163,10 @@ class App(object):
         self._overrides = overrides or {}
         TL.observe = False
         try:
+            # SQLite re-uses rowids of deleted rows unless AUTOINCREMENT is declared; MySQL and PostgreSQL
+            # never do.  Declare it so that "DELETE ... WHERE id IN (ids read earlier)" behaves as there.
+            for tbl in models.BASE.metadata.tables.values():
+                tbl.kwargs['sqlite_autoincrement'] = True
             models.BASE.metadata.drop_all(self.engine)
             migration.create_schema(self.engine)
             trait_obj._TRAITS_SYNCED = False
